@@ -6,6 +6,7 @@
 //    (See accompanying file LICENSE_1_0.txt or copy at
 //          https://www.boost.org/LICENSE_1_0.txt)
 
+#include <memory>
 #include <vector>
 #include <set>
 #include <map>
@@ -152,11 +153,22 @@ namespace parmcb {
     }
 
 #ifdef PARMCB_HAVE_TBB
+    /*
+     * Limit the parallelism TBB is allowed to use. The limit stays in effect until the function
+     * is called again (the controlling object must outlive the call, otherwise the limit is
+     * dropped as soon as the function returns).
+     */
     inline void set_global_tbb_concurrency(const std::size_t hardware_concurrency_hint) {
 #if TBB_VERSION_MAJOR > 2020
-    	oneapi::tbb::global_control global_limit(oneapi::tbb::global_control::max_allowed_parallelism, hardware_concurrency_hint);
+        static std::unique_ptr<oneapi::tbb::global_control> global_limit;
+        global_limit.reset(); // release the previous limit first, the strictest active limit wins
+        global_limit.reset(
+                new oneapi::tbb::global_control(oneapi::tbb::global_control::max_allowed_parallelism,
+                        hardware_concurrency_hint));
 #else
-    	tbb::task_scheduler_init init(hardware_concurrency_hint);
+        static std::unique_ptr<tbb::task_scheduler_init> init;
+        init.reset();
+        init.reset(new tbb::task_scheduler_init(hardware_concurrency_hint));
 #endif
     }
 #endif
